@@ -11,7 +11,8 @@
 (***************************************************************************)
 EXTENDS Naturals, Sequences, FiniteSets
 
-ValidKinds    == {"valid", "validNL"}                       \* base64 of 64 bytes (validNL: followed by a newline)
+ValidKinds    == {"valid", "validNL", "validLink"}          \* base64 of 64 bytes (validNL: followed by a newline; validLink: reached
+                                                            \* through a symbolic link)
 UnusableKinds == {"empty", "short", "long", "nonb64", "dir", "unreadable"}
 MissingKinds  == {"absent", "noparent"}                     \* nothing at the path (noparent: not even its directory)
 Kinds == ValidKinds \cup UnusableKinds \cup MissingKinds
@@ -25,20 +26,23 @@ VARIABLES
   exit,     \* exit status of the current run (0 / 1), meaningful when pc = "exited"
   fresh,    \* next unused key identity
   hist,     \* history: one record per finished run
-  lines,    \* how many object lines the input of a run has (constant 2)
-  input,    \* "good" | "abort": the input of this run has an over-long line after its first line (the run fails part-way)
+  lines,    \* how many object lines the input of a run has
+  input,    \* "good": a line with nothing to encrypt, then two command lines | "abort": the same with an over-long line after the
+            \* second line (the run fails part-way) | "benign": two lines with nothing to encrypt at all
   env,      \* what the environment did to the key path before this run ("none" or the kind it put there)
   before    \* history: what was at the key path when this run started
 
 vars == <<path, out, inUse, pc, run, exit, fresh, hist, lines, input, env, before>>
 
 NoKey == 0
+Inputs == {"good", "abort", "benign"}
+LinesOf(i) == IF i = "benign" THEN 2 ELSE 3
 PathRec(k, id, m) == [kind |-> k, key |-> id, mode |-> m]
 
 KeyFileInit(k) ==
   /\ path = PathRec(k, IF k \in ValidKinds THEN 1 ELSE NoKey, IF k \in MissingKinds THEN "none" ELSE IF k = "dir" THEN "dir" ELSE IF k = "unreadable" THEN "000" ELSE "644")
-  /\ out = <<>> /\ inUse = NoKey /\ pc = "start" /\ run = 1 /\ exit = 0 /\ fresh = 2 /\ hist = <<>> /\ lines = 2
-  /\ input \in {"good", "abort"} /\ env = "none" /\ before = path
+  /\ out = <<>> /\ inUse = NoKey /\ pc = "start" /\ run = 1 /\ exit = 0 /\ fresh = 2 /\ hist = <<>>
+  /\ input \in Inputs /\ lines = LinesOf(input) /\ env = "none" /\ before = path
 
 \* os.Create(outputFile): the output is truncated before the key stage
 CreateOut == /\ pc = "start" /\ out' = <<>> /\ pc' = "outCreated" /\ UNCHANGED <<path, inUse, run, exit, fresh, hist, lines, input, env, before>>
@@ -69,21 +73,21 @@ ReadKey == /\ pc = "exists"
            /\ UNCHANGED <<path, out, run, fresh, hist, lines, input, env, before>>
 
 \* one redacted line with ciphertexts under the key in use
-WriteCipherLine == /\ pc = "ready" /\ Len(out) < lines /\ ~(input = "abort" /\ Len(out) = 1) /\ out' = Append(out, inUse)
+WriteCipherLine == /\ pc = "ready" /\ Len(out) < lines /\ ~(input = "abort" /\ Len(out) = 2) /\ out' = Append(out, inUse)
                    /\ UNCHANGED <<path, inUse, pc, run, exit, fresh, hist, lines, input, env, before>>
 
 ExitOk == /\ pc = "ready" /\ Len(out) = lines /\ pc' = "exited" /\ exit' = 0
           /\ UNCHANGED <<path, out, inUse, run, fresh, hist, lines, input, env, before>>
 
-\* the scanner meets the over-long line after the first line: the run ends with an error, one line is already written
-AbortMidRun == /\ pc = "ready" /\ input = "abort" /\ Len(out) = 1 /\ pc' = "exited" /\ exit' = 1
+\* the scanner meets the over-long line after the second line: the run ends with an error, two lines are already written
+AbortMidRun == /\ pc = "ready" /\ input = "abort" /\ Len(out) = 2 /\ pc' = "exited" /\ exit' = 1
                /\ UNCHANGED <<path, out, inUse, run, fresh, hist, lines, input, env, before>>
 
 \* the next run starts over the same path, in a new process (no key in memory)
 NextRun == /\ pc = "exited"
            /\ hist' = Append(hist, [run |-> run, exit |-> exit, path |-> path, out |-> out, used |-> inUse, input |-> input, env |-> env, before |-> before])
            /\ run' = run + 1 /\ pc' = "start" /\ inUse' = NoKey /\ exit' = 0
-           /\ input' \in {"good", "abort"}
+           /\ input' \in Inputs /\ lines' = LinesOf(input')
            \* between two runs the environment may leave the path alone or put something else there (another valid key is a new identity)
            /\ \E k \in {"none"} \cup Kinds :
                 /\ env' = k
@@ -92,7 +96,7 @@ NextRun == /\ pc = "exited"
                                             IF k \in MissingKinds THEN "none" ELSE IF k = "dir" THEN "dir" ELSE IF k = "unreadable" THEN "000" ELSE "644")
                         /\ fresh' = IF k \in ValidKinds THEN fresh + 1 ELSE fresh
            /\ before' = path'
-           /\ UNCHANGED <<out, lines>>
+           /\ UNCHANGED out
 
 ProgramStep == CreateOut \/ StatKey \/ Generate \/ WriteKey \/ ReadKey \/ WriteCipherLine \/ ExitOk \/ AbortMidRun
 KeyFileNext == ProgramStep \/ NextRun
@@ -110,5 +114,5 @@ CreateOnce == [][ProgramStep /\ path' # path => path.kind = "absent" /\ path'.ki
 \* a run that succeeds used the key stored at the path; consecutive successful runs use the same key
 \* ... as long as the environment leaves the path alone
 ReadBack == \A i \in 1..Len(hist) : i > 1 /\ hist[i].env = "none" /\ hist[i].exit = 0 /\ hist[i-1].exit = 0 => hist[i].used = hist[i-1].used
-SuccessHasKey == pc = "exited" /\ exit = 0 => path.kind \in ValidKinds /\ path.key = inUse /\ Len(out) = lines /\ input = "good"
+SuccessHasKey == pc = "exited" /\ exit = 0 => path.kind \in ValidKinds /\ path.key = inUse /\ Len(out) = lines /\ input # "abort"
 =============================================================================
